@@ -715,10 +715,13 @@ def _unroll_constant_tables(tree):
                     setattr(st, fld, unroll_block(b, shadow, fn))
             for h in getattr(st, "handlers", []) or []:
                 h.body = unroll_block(h.body, shadow, fn)
-            if isinstance(st, ast.For) and not st.orelse and isinstance(st.iter, ast.Name) and st.iter.id in tables and st.iter.id not in shadow:
+            local_tbl = None
+            if isinstance(st, ast.For) and not st.orelse and fn is not None:
+                local_tbl = _local_table(st, out, fn)
+            if local_tbl is not None or (isinstance(st, ast.For) and not st.orelse and isinstance(st.iter, ast.Name) and st.iter.id in tables and st.iter.id not in shadow):
                 tnames = [st.target.id] if isinstance(st.target, ast.Name) else \
                     ([e.id for e in st.target.elts] if isinstance(st.target, (ast.Tuple, ast.List)) and all(isinstance(e, ast.Name) for e in st.target.elts) else None)
-                rows = tables[st.iter.id].elts
+                rows = local_tbl[0].elts if local_tbl is not None else tables[st.iter.id].elts
                 inner = [n for b in st.body for n in ast.walk(b)]
                 simple = tnames is not None and not any(isinstance(n, (ast.Break, ast.Continue, ast.FunctionDef, ast.Lambda, ast.ClassDef, ast.Yield, ast.YieldFrom)) for n in inner) \
                     and not any(isinstance(n, ast.Name) and n.id in tnames and isinstance(n.ctx, (ast.Store, ast.Del)) for n in inner)
@@ -740,12 +743,53 @@ def _unroll_constant_tables(tree):
                                 if hasattr(x, "lineno"):
                                     x.lineno, x.col_offset = st.lineno, st.col_offset
                                     x.end_lineno, x.end_col_offset = getattr(st, "end_lineno", st.lineno), getattr(st, "end_col_offset", st.col_offset)
+                        if local_tbl is not None and local_tbl[1] is not None:
+                            out.remove(local_tbl[1])       # the table's only reader was this loop
                         out.extend(new)
                         continue
             out.append(st)
         return out
 
-    if tables:
+    def _pure(e) -> bool:
+        return all(isinstance(n, (ast.Name, ast.Constant, ast.Subscript, ast.Attribute, ast.BinOp, ast.UnaryOp, ast.Tuple, ast.Slice, ast.Load, ast.operator, ast.unaryop))
+                   for n in ast.walk(e))
+
+    def _local_table(loop, before, fn):
+        """(literal rows, defining statement or None) of `for .. in <literal table>` / `for .. in name` with `name = <literal table>` the statement
+        just before the loop, name read nowhere else; the rows are side-effect free expressions over names the loop body never writes"""
+        lit, dst = None, None
+        if isinstance(loop.iter, (ast.Tuple, ast.List)):
+            lit = loop.iter
+        elif isinstance(loop.iter, ast.Name) and before and isinstance(before[-1], ast.Assign) and len(before[-1].targets) == 1 \
+                and isinstance(before[-1].targets[0], ast.Name) and before[-1].targets[0].id == loop.iter.id and isinstance(before[-1].value, (ast.Tuple, ast.List)):
+            nm = loop.iter.id
+            uses = [n for n in ast.walk(fn) if isinstance(n, ast.Name) and n.id == nm]
+            if len(uses) == 2:
+                lit, dst = before[-1].value, before[-1]
+        if lit is None or not (0 < len(lit.elts) <= 8) or any(isinstance(r, ast.Starred) for r in lit.elts) or not _pure(lit):
+            return None
+        if _const_value(lit) is not _const_value:
+            return None if dst is None and False else (lit, dst)
+        row_names = {n.id for n in ast.walk(lit) if isinstance(n, ast.Name)}
+        for b in loop.body:
+            for n in ast.walk(b):
+                if isinstance(n, ast.Name) and n.id in row_names and isinstance(n.ctx, (ast.Store, ast.Del)):
+                    return None
+                if isinstance(n, (ast.Subscript, ast.Attribute)) and isinstance(n.ctx, ast.Store):
+                    r_ = n
+                    while isinstance(r_, (ast.Subscript, ast.Attribute)):
+                        r_ = r_.value
+                    if isinstance(r_, ast.Name) and r_.id in row_names:
+                        return None
+                if isinstance(n, ast.Call) and isinstance(n.func, ast.Attribute) and n.func.attr.endswith("_") and not n.func.attr.startswith("_"):
+                    r_ = n.func.value
+                    while isinstance(r_, (ast.Subscript, ast.Attribute)):
+                        r_ = r_.value
+                    if isinstance(r_, ast.Name) and r_.id in row_names:
+                        return None
+        return (lit, dst)
+
+    if True:
         for fn in [n for n in ast.walk(tree) if isinstance(n, (ast.FunctionDef, ast.AsyncFunctionDef))]:
             loc = local_stores(fn)
             fn.body = unroll_block(fn.body, {t for t in tables if t in loc}, fn)
